@@ -1,4 +1,4 @@
-CONSTANT AsFoundFold = FALSE
+CONSTANT AsFoundFold = TRUE
 INIT Init
 NEXT Next
 INVARIANT Monitors
